@@ -202,21 +202,22 @@ def make_stubs(world):
                 else (s, k, acc) for s, k, acc in res]
 
     # ------------------------------------------------------------------ ast.literal_eval
-    LIT_EXC = ('ValueError', 'SyntaxError', 'MemoryError', 'RecursionError')
+    LIT_EXC = ('ValueError', 'TypeError', 'SyntaxError', 'MemoryError', 'RecursionError')
 
     def _w_literal():
         import ast
         outs = set()
-        for text in ('class', 'a.b', '1+', "'x'", '1', 'None'):
+        for text in ('class', 'a.b', '1+', "'x'", '1', 'None', '{[]}'):
             try:
                 ast.literal_eval(text)
                 outs.add('ok')
             except Exception as e:
                 outs.add(type(e).__name__)
-        return {'ok', 'ValueError', 'SyntaxError'} <= outs
+        return {'ok', 'ValueError', 'SyntaxError', 'TypeError'} <= outs
 
     @S.fn('ast.literal_eval', doc='returns litval(s) when is_literal(s); otherwise raises ValueError, SyntaxError, '
-          'MemoryError or RecursionError (the documented set for string input; TypeError only for non-strings)',
+          'TypeError, MemoryError or RecursionError (the set the ast documentation lists; TypeError also for string '
+          'input, e.g. the unhashable set element in "{[]}")',
           witness=_w_literal)
     def literal_eval(eng, st, pos, kw):
         a = pos[0]
